@@ -6,12 +6,17 @@ CLAIMS = {
     "C12": {"text": "For all token vectors / byte strings: the hand-written multi-line-string scanner bumps a valid byte count; (more units as they land).",
             "note": "logos' regex tokenisation and rowan's green tree are external and assumed to behave as their shim contracts say."},
 }
-CLAIMS["C12"] = {"text": "For all token vectors / byte strings: build_tree emits every token exactly once, in order, under a single root (given the parser core's invariant), the parser core keeps that invariant and its Advance accounting, Input's cursor/trivia functions meet their spec functions, the multi-line-string scanner bumps a valid byte count on a char boundary, token kinds share discriminants with syntax kinds. Unbounded Verus proofs on the real function text.",
+CLAIMS["C12"] = {"text": "For all token vectors / byte strings: build_tree emits every token exactly once, in order, under a single root (given the parser invariant and a balanced event stream), the parser core AND every grammar function keep that invariant and the Advance accounting, file() returns only at end of input, Input's cursor/trivia functions meet their spec functions, the multi-line-string scanner bumps a valid byte count on a char boundary, token kinds share discriminants with syntax kinds. Unbounded Verus proofs on the real function text.",
                  "note": "logos' regex tokenisation and rowan's green tree are external (shim contracts listed in evidence.assumptions); the grammar functions between Parser core and build_tree are covered only as far as evidence.coverage.functions_under_contract lists them."}
 CLAIMS["C09"] = {"text": "DCE clause only: dce::{expr,stmt}_has_side_effects over-approximate `may have an observable effect` (calls, go, stores, integer division, indexing) for all Go ASTs, so dead-code elimination never classifies an effectful or possibly failing expression as removable. Unbounded Verus proof on the extracted functions.",
                  "note": "Left-to-right naming in anf, short-circuit of && / ||, while re-evaluation and `go` are NOT decided (CPS over boxed closures and hash maps are outside Verus/Kani reach here; see DESIGN.md C09). Iterator combinators `any` / `as_ref().map().unwrap_or()` are expanded by generic rules with std semantics assumed."}
 CLAIMS["C11"] = {"text": "Binding-power tables only: for all token kinds the infix/prefix/postfix/type-infix tables realise the documented grammar (operator set, precedence levels, left associativity, unary tighter than * /, call and field access tightest, -> right-associative). Verus lemmas over spec-mode twins of the real match bodies.",
                  "note": "The Pratt loop itself, postfix-call re-association in lower.rs and literal/escape fidelity are not decided."}
+
+CLAIMS["C04"] = {"text": "Front end only, for ALL token vectors / byte strings (unbounded Verus proofs on the real function text): every grammar function of the parser (file.rs, expr.rs, pattern.rs, stmt.rs, path.rs), the parser core, Input, build_tree and the multi-line-string scanner terminate (decreases on every loop and every recursive cycle via a measure over remaining tokens and look-ahead fuel), never index out of range or overflow, and keep the parser invariant; artifact loaders return Err rather than accept unusable units.",
+                 "note": "PARTIAL correctness w.r.t. the in-function `assert!(p.at(..))` / `unreachable!()` sites of the grammar functions: they are assumed to hold where they occur (their freedom from panics depends on exact fuel lower bounds and is NOT claimed; one such panic is known, DESIGN.md §5). Everything after the parser (lower, typer, mono, Go backend) is not covered. Shims for logos/rowan/Diagnostics are assumed."}
+CLAIMS["C15"] = {"text": "For all artifact field values: the interface hash covers all six components (format_version, compiler_abi, package, exports, hir_interface, deps); InterfaceUnit::new stores it; InterfaceUnit::validate / CoreUnit::validate accept exactly / only usable units (current versions incl. the embedded interface's, unaltered hash, matching package and deps); load_interface_from_paths and read_core return Ok only for usable units of the requested package.",
+                 "note": "serde_json∘sha256∘hex is one uninterpreted deterministic function of the serialised view (collision-freedom and serde field coverage assumed); the hash-comparison loop of link_cores (HashMap iteration inside a 100-line function) and CLI plumbing are not under contract."}
 
 NOT_APPLICABLE = {
     "C01": "whole-pipeline semantic preservation needs formal semantics of goml and Go plus a simulation proof over six passes; no per-function contract within Verus/Kani reach expresses it (function-level pieces are decided under C06/C09/C10/C19)",
@@ -19,5 +24,5 @@ NOT_APPLICABLE = {
     "C18": "behaviour of generated goml code through the whole pipeline and of Go's fmt %q at run time; no verifier for Go here and derive::expand only builds AST",
     "C20": "crash-freedom of lower.rs + whole typer on erroneous HIR and relational agreement with the compiler; nothing function-sized carries it",
 }
-for _p in ["C02", "C03", "C05", "C06", "C07", "C08", "C10", "C13", "C15", "C16", "C17", "C19"]:
+for _p in ["C02", "C03", "C05", "C06", "C07", "C08", "C10", "C13", "C16", "C17", "C19"]:
     NOT_APPLICABLE.setdefault(_p, TODO)
